@@ -595,6 +595,12 @@ func vfC09Run(t *testing.T, cs vfC09Case, out *vfC09Out, isKnown func(string) bo
 			if mode == 3 && kind == "subscribe" && cs.Pings && parkedSubs() >= 1 {
 				mode = 0 // with ping timers at most one subscribe is kept in flight (see the note on close())
 			}
+			if mode == 3 && kind == "subscribe" && cs.Frames {
+				// One frame can make the server spawn two close() calls (a handler's disconnect, then a malformed rest of the
+				// frame); with a subscribe in flight the first waits on a timer while the second blocks on connectMu, which
+				// a synctest bubble cannot wait out. Subscribes are therefore parked only in the command-by-command mode.
+				mode = 0
+			}
 			switch mode {
 			case 0:
 				answer(b, nil)
@@ -1106,7 +1112,7 @@ func vfC09FuzzCase(data []byte) vfC09Case {
 	if len(data) > 2 {
 		body = data[2:]
 	}
-	cs := vfC09Case{Proto: ProtocolTypeJSON, SubCSR: h0&4 != 0, CSR: h0&8 != 0}
+	cs := vfC09Case{Proto: ProtocolTypeJSON, SubCSR: h0&4 != 0, CSR: h0&8 != 0, Frames: true, Wild: 2}
 	if h0&1 != 0 {
 		cs.Proto = ProtocolTypeProtobuf
 	}
